@@ -256,6 +256,8 @@ def queries(tier):
     for l0 in (1, 2):
         for pre in (0, 1):
             for lr in (1, 2):
+                if l0 == 1 and lr == 1:
+                    continue  # three distinct one-segment inner paths use up the 3-letter alphabet: no one-segment root path is left (vacuous)
                 qs.append({"id": "api.rootkept.l%d.pre%d.r%d" % (l0, pre, lr), "fn": "api", "sel": {"alpha": ["f", "g", "x"], "native": True, "l0": l0, "l1": 1, "l2": 1, "rootkept": True, "pre": pre, "lr": lr}, "timeout": 900})
     for L in (1, 2, 3):
         for kind in ("call", "keep", "href"):
